@@ -59,6 +59,10 @@ func histString(h []hEvent) string {
 }
 
 func seqTID(i int8) (t [12]byte) {
+	if i == 1 {
+		// the all-zero id: as legal as any other (it is what a message built without a transaction id setter carries)
+		return t
+	}
 	for k := range t {
 		t[k] = 0xC0 + byte(i)
 	}
